@@ -128,7 +128,20 @@ func Mutate(r *rand.Rand, doc interface{}, n int, deepDepth int) Mutant {
 			break
 		}
 		nd := nodes[r.Intn(len(nodes))]
-		switch op := r.Intn(12); op {
+		switch op := r.Intn(13); op {
+		case 12:
+			// an extension spelled with an upper-case prefix, next to an undefined member whose own content looks like an extension
+			if mp, ok := nd.get().(map[string]interface{}); ok {
+				delete(mp, "x-order")
+				for k := range mp {
+					if strings.HasPrefix(k, "x-") {
+						delete(mp, k)
+					}
+				}
+				mp["X-Only"] = map[string]interface{}{"url": "u"}
+				mp["zz-undefined"] = map[string]interface{}{"x-inner": float64(1)}
+				m.Ops = append(m.Ops, "upper-case X- extension next to an undefined member")
+			}
 		case 0, 1, 2:
 			v := otherTyped(r, nd.get())
 			nd.set(v)
